@@ -5,7 +5,10 @@
 //!  * "feature" account sets: struct-level `before_validation` / `extra_validation` /
 //!    `extra_cleanup` hooks (instrumented), `#[validate(skip)]` fields, `#[account_set(skip = ..)]`
 //!    fields, funder / recipient marks, NESTED derived sets (depth up to 3, `requires` at every
-//!    level), and structs with a second validate id (`#[validate(id = "alt", ..)]`);
+//!    level), structs with a second validate / decode / cleanup id (`#[validate(id = "alt", ..)]`,
+//!    `#[decode(id = "alt", ..)]`, `#[cleanup(id = "alt", ..)]`), container fields (`Option<T>`,
+//!    `Vec<T>` with a decode length, `[T; N]`, `Rest<T>`, `Box<T>`), `#[single_account_set]`
+//!    wrappers, tuple structs, generic structs, and field-level `address` / `temp` / `arg`;
 //!  * 14 "dispatch" instruction sets (1..6 instructions; default sighash discriminants and
 //!    `use_repr` with u8/u16/u32/u64, implicit and explicit values with gaps, one with an
 //!    expression discriminant) and the "zoo" instruction sets that make every generated account
@@ -112,10 +115,17 @@ const FIELD: [&str; 6] = ["a", "b", "c", "d", "e", "f"];
 
 #[derive(Clone)]
 enum Ty {
-    Leaf,
+    /// `Probe<pid>`
+    Leaf(u32),
     Struct(Box<StructDef>),
     /// `#[account_set(skip = 7u8)] x: u8` — takes part in nothing
     Plain,
+    Opt(Box<Ty>),
+    /// `Vec<T>` with `#[decode(arg = n)]` (and `#[decode(id = "alt", arg = m)]`)
+    VecN(usize, Option<usize>, Box<Ty>),
+    Arr(usize, Box<Ty>),
+    Rest(Box<Ty>),
+    Boxed(Box<Ty>),
 }
 
 #[derive(Clone)]
@@ -124,147 +134,292 @@ struct FieldDef {
     skip: bool,
     funder: bool,
     recipient: bool,
+    addr: bool,
+    temp: bool,
+    arg: bool,
     /// requires / skip under the second validate id
     alt: Option<(Vec<usize>, bool)>,
     ty: Ty,
 }
 
 impl FieldDef {
-    fn leaf(requires: Vec<usize>) -> Self {
-        FieldDef { requires, skip: false, funder: false, recipient: false, alt: None, ty: Ty::Leaf }
+    fn of(ty: Ty, requires: Vec<usize>) -> Self {
+        FieldDef { requires, skip: false, funder: false, recipient: false, addr: false, temp: false, arg: false, alt: None, ty }
     }
+    fn leaf(requires: Vec<usize>) -> Self {
+        Self::of(Ty::Leaf(0), requires)
+    }
+}
+
+#[derive(Clone, Copy, PartialEq, Default)]
+enum Shape {
+    #[default]
+    Named,
+    /// `struct T(A, B);` (no `requires`: they name idents)
+    Tuple,
+    /// `struct G<T0, T1> where .. { a: T0, b: T1 }`
+    Generic,
+    /// `struct W(#[single_account_set] Inner);`
+    Single,
 }
 
 #[derive(Clone, Default)]
 struct StructDef {
+    shape: Shape,
     before: bool,
     extra: bool,
     cextra: bool,
     /// second validate id: (before, extra)
     alt: Option<(bool, bool)>,
+    /// second decode id (`#[decode(id = "alt", arg = Alt)]`)
+    dalt: bool,
+    /// second cleanup id: extra_cleanup under it
+    calt: Option<bool>,
     fields: Vec<FieldDef>,
+    sid: u32,
+    name: String,
 }
 
 fn flat(g: &Graph) -> StructDef {
     StructDef { fields: g.iter().map(|r| FieldDef::leaf(r.clone())).collect(), ..Default::default() }
 }
 
-/// Emits the Rust declarations of `s` (inner structs first) and returns the model token of the
-/// tree as seen through the default (`alt = false`) or the second validate id of the ROOT.
-struct Emit<'a> {
-    src: &'a mut String,
+struct Ids {
     root: String,
     pid: u32,
     sid: u32,
     inner: u32,
 }
 
-impl Emit<'_> {
-    /// returns (token under default id, token under alt id of this struct)
-    fn emit(&mut self, s: &StructDef, name: &str) -> (String, String) {
-        let sid = self.sid;
-        self.sid += 1;
-        let mut decls = String::new();
-        let mut toks: Vec<String> = vec![];
-        let mut toks_alt: Vec<String> = vec![];
-        for (i, f) in s.fields.iter().enumerate() {
-            let fname = FIELD[i];
-            let sub = match &f.ty {
-                Ty::Plain => {
-                    writeln!(decls, "    #[account_set(skip = 7u8)]\n    pub {fname}: u8,").unwrap();
-                    continue;
-                }
-                Ty::Leaf => {
-                    let p = self.pid;
-                    self.pid += 1;
-                    (format!("Probe<{p}>"), format!("L{p}"))
-                }
-                Ty::Struct(inner) => {
-                    let iname = format!("{}_i{}", self.root, self.inner);
-                    self.inner += 1;
-                    let (tok, _) = self.emit(inner, &iname);
-                    (iname, tok)
-                }
-            };
-            let mut args: Vec<String> = vec![];
-            if !f.requires.is_empty() {
-                args.push(format!("requires = [{}]", f.requires.iter().map(|&r| FIELD[r]).collect::<Vec<_>>().join(", ")));
+fn assign_ty(t: &mut Ty, ids: &mut Ids) {
+    match t {
+        Ty::Leaf(p) => {
+            *p = ids.pid;
+            ids.pid += 1;
+        }
+        Ty::Struct(s) => {
+            let name = format!("{}_i{}", ids.root, ids.inner);
+            ids.inner += 1;
+            assign(s, name, ids);
+        }
+        Ty::Plain => {}
+        Ty::Opt(t) | Ty::VecN(_, _, t) | Ty::Arr(_, t) | Ty::Rest(t) | Ty::Boxed(t) => assign_ty(t, ids),
+    }
+}
+fn assign(s: &mut StructDef, name: String, ids: &mut Ids) {
+    s.name = name;
+    s.sid = ids.sid;
+    ids.sid += 1;
+    for f in &mut s.fields {
+        assign_ty(&mut f.ty, ids);
+    }
+}
+
+/// Rust type of a field; emits the declarations of the structs it contains.
+fn rust_ty(t: &Ty, src: &mut String) -> String {
+    match t {
+        Ty::Leaf(p) => format!("Probe<{p}>"),
+        Ty::Struct(s) => emit_struct(s, src),
+        Ty::Plain => "u8".into(),
+        Ty::Opt(t) => format!("Option<{}>", rust_ty(t, src)),
+        Ty::VecN(_, _, t) => format!("Vec<{}>", rust_ty(t, src)),
+        Ty::Arr(n, t) => format!("[{}; {n}]", rust_ty(t, src)),
+        Ty::Rest(t) => format!("Rest<{}>", rust_ty(t, src)),
+        Ty::Boxed(t) => format!("Box<{}>", rust_ty(t, src)),
+    }
+}
+
+/// Emits the declaration of `s` (inner structs first); returns the type to use for it.
+fn emit_struct(s: &StructDef, src: &mut String) -> String {
+    let sid = s.sid;
+    let mut decls = String::new();
+    let mut generic_args: Vec<String> = vec![];
+    for (i, f) in s.fields.iter().enumerate() {
+        let fname = FIELD[i];
+        let mut ty = rust_ty(&f.ty, src);
+        let me = if s.shape == Shape::Tuple || s.shape == Shape::Single { format!("self.{i}") } else { format!("self.{fname}") };
+        if let Ty::Plain = f.ty {
+            writeln!(decls, "    #[account_set(skip = 7u8)]").unwrap();
+        }
+        if s.shape == Shape::Single {
+            writeln!(decls, "    #[single_account_set]").unwrap();
+        }
+        let mut args: Vec<String> = vec![];
+        if !f.requires.is_empty() {
+            args.push(format!("requires = [{}]", f.requires.iter().map(|&r| FIELD[r]).collect::<Vec<_>>().join(", ")));
+        }
+        for (b, k) in [(f.skip, "skip"), (f.funder, "funder"), (f.recipient, "recipient")] {
+            if b {
+                args.push(k.into());
             }
-            if f.skip {
+        }
+        if f.addr {
+            args.push(format!("address = &addr_log(&{me})"));
+        }
+        if f.temp {
+            args.push(format!("temp = tlog(&{me})"));
+        }
+        if f.arg {
+            args.push(format!("arg = alog(&{me})"));
+        }
+        if !args.is_empty() {
+            writeln!(decls, "    #[validate({})]", args.join(", ")).unwrap();
+        }
+        if let Some((req, skip)) = &f.alt {
+            let mut args = vec!["id = \"alt\"".to_string()];
+            if !req.is_empty() {
+                args.push(format!("requires = [{}]", req.iter().map(|&r| FIELD[r]).collect::<Vec<_>>().join(", ")));
+            }
+            if *skip {
                 args.push("skip".into());
             }
-            if f.funder {
-                args.push("funder".into());
-            }
-            if f.recipient {
-                args.push("recipient".into());
-            }
-            if !args.is_empty() {
+            if args.len() > 1 {
                 writeln!(decls, "    #[validate({})]", args.join(", ")).unwrap();
             }
-            if let Some((req, skip)) = &f.alt {
-                let mut args = vec!["id = \"alt\"".to_string()];
-                if !req.is_empty() {
-                    args.push(format!("requires = [{}]", req.iter().map(|&r| FIELD[r]).collect::<Vec<_>>().join(", ")));
-                }
-                if *skip {
-                    args.push("skip".into());
-                }
-                if args.len() > 1 {
-                    writeln!(decls, "    #[validate({})]", args.join(", ")).unwrap();
-                }
-            }
-            writeln!(decls, "    pub {fname}: {},", sub.0).unwrap();
-            let tok = |req: &[usize], skip: bool, funder: bool, recipient: bool| {
-                let mut t = i.to_string();
-                for r in req {
-                    write!(t, "<{r}").unwrap();
-                }
-                let fl: String = [(skip, 's'), (funder, 'f'), (recipient, 'r')].iter().filter(|x| x.0).map(|x| x.1).collect();
-                if !fl.is_empty() {
-                    write!(t, "!{fl}").unwrap();
-                }
-                format!("{t}={}", sub.1)
-            };
-            toks.push(tok(&f.requires, f.skip, f.funder, f.recipient));
-            let (areq, askip) = f.alt.clone().unwrap_or((vec![], false));
-            toks_alt.push(tok(&areq, askip, false, false));
         }
-        let hook = |k: &str, ph: &str| format!("{k} = hook(Ph::{ph}, {sid})");
-        let src = &mut *self.src;
-        writeln!(src, "#[derive(AccountSet)]").unwrap();
-        writeln!(src, "#[account_set(skip_client_account_set, skip_cpi_account_set, skip_default_idl)]").unwrap();
-        let mut v: Vec<String> = vec![];
-        if s.before {
+        if let Ty::VecN(n, m, _) = &f.ty {
+            writeln!(decls, "    #[decode(arg = {n})]").unwrap();
+            if let (Some(m), true) = (m, s.dalt) {
+                writeln!(decls, "    #[decode(id = \"alt\", arg = {m})]").unwrap();
+            }
+        }
+        if s.shape == Shape::Generic && !matches!(f.ty, Ty::Plain | Ty::VecN(..)) {
+            generic_args.push(ty.clone());
+            ty = format!("T{}", generic_args.len() - 1);
+        }
+        match s.shape {
+            Shape::Tuple | Shape::Single => writeln!(decls, "    pub {ty},").unwrap(),
+            _ => writeln!(decls, "    pub {fname}: {ty},").unwrap(),
+        }
+    }
+    let hook = |k: &str, ph: &str| format!("{k} = hook(Ph::{ph}, {sid})");
+    writeln!(src, "#[derive(AccountSet)]").unwrap();
+    writeln!(src, "#[account_set(skip_client_account_set, skip_cpi_account_set, skip_default_idl)]").unwrap();
+    let mut v: Vec<String> = vec![];
+    if s.before {
+        v.push(hook("before_validation", "VBefore"));
+    }
+    if s.extra {
+        v.push(hook("extra_validation", "VExtra"));
+    }
+    if !v.is_empty() {
+        writeln!(src, "#[validate({})]", v.join(", ")).unwrap();
+    }
+    if let Some((b, e)) = s.alt {
+        let mut v = vec!["id = \"alt\"".to_string(), "arg = Alt".to_string()];
+        if b {
             v.push(hook("before_validation", "VBefore"));
         }
-        if s.extra {
+        if e {
             v.push(hook("extra_validation", "VExtra"));
         }
-        if !v.is_empty() {
-            writeln!(src, "#[validate({})]", v.join(", ")).unwrap();
-        }
-        if let Some((b, e)) = s.alt {
-            let mut v = vec!["id = \"alt\"".to_string(), "arg = Alt".to_string()];
-            if b {
-                v.push(hook("before_validation", "VBefore"));
-            }
-            if e {
-                v.push(hook("extra_validation", "VExtra"));
-            }
-            writeln!(src, "#[validate({})]", v.join(", ")).unwrap();
-        }
-        if s.cextra {
-            writeln!(src, "#[cleanup({})]", hook("extra_cleanup", "CExtra")).unwrap();
-        }
-        writeln!(src, "pub struct {name} {{\n{decls}}}").unwrap();
-        let fl = |b: bool, e: bool, x: bool| -> String { [(b, 'b'), (e, 'e'), (x, 'x')].iter().filter(|x| x.0).map(|x| x.1).collect() };
-        let (ab, ae) = s.alt.unwrap_or((false, false));
-        (
-            format!("N{sid}{}({})", fl(s.before, s.extra, s.cextra), toks.join(",")),
-            format!("N{sid}{}({})", fl(ab, ae, s.cextra), toks_alt.join(",")),
-        )
+        writeln!(src, "#[validate({})]", v.join(", ")).unwrap();
     }
+    if s.dalt {
+        writeln!(src, "#[decode(id = \"alt\", arg = Alt)]").unwrap();
+    }
+    if s.cextra {
+        writeln!(src, "#[cleanup({})]", hook("extra_cleanup", "CExtra")).unwrap();
+    }
+    if let Some(x) = s.calt {
+        let mut v = vec!["id = \"alt\"".to_string(), "arg = Alt".to_string()];
+        if x {
+            v.push(hook("extra_cleanup", "CExtra"));
+        }
+        writeln!(src, "#[cleanup({})]", v.join(", ")).unwrap();
+    }
+    let name = &s.name;
+    match s.shape {
+        Shape::Named => writeln!(src, "pub struct {name} {{\n{decls}}}").unwrap(),
+        Shape::Tuple | Shape::Single => writeln!(src, "pub struct {name}(\n{decls});").unwrap(),
+        Shape::Generic => {
+            let params: Vec<String> = (0..generic_args.len()).map(|i| format!("T{i}")).collect();
+            let bounds: Vec<String> = params
+                .iter()
+                .map(|p| format!("    {p}: for<'x> AccountSetDecode<'x, ()> + AccountSetValidate<()> + AccountSetCleanup<()>,"))
+                .collect();
+            writeln!(src, "pub struct {name}<{}>\nwhere\n{}\n{{\n{decls}}}", params.join(", "), bounds.join("\n")).unwrap();
+        }
+    }
+    if s.shape == Shape::Generic {
+        format!("{name}<{}>", generic_args.join(", "))
+    } else {
+        name.clone()
+    }
+}
+
+/// which id each phase of the ROOT uses
+#[derive(Clone, Copy, Default)]
+struct IdSel {
+    d: bool,
+    v: bool,
+    c: bool,
+}
+
+fn ty_token(t: &Ty, root: Option<IdSel>, out: &mut String) {
+    match t {
+        Ty::Leaf(p) => write!(out, "L{p}").unwrap(),
+        Ty::Struct(s) => struct_token(s, None, out),
+        Ty::Plain => unreachable!(),
+        Ty::Opt(t) => {
+            out.push('O');
+            ty_token(t, None, out);
+        }
+        Ty::VecN(n, m, t) => {
+            let len = if root.is_some_and(|r| r.d) { m.unwrap_or(*n) } else { *n };
+            write!(out, "V{len}*").unwrap();
+            ty_token(t, None, out);
+        }
+        Ty::Arr(n, t) => {
+            write!(out, "V{n}*").unwrap();
+            ty_token(t, None, out);
+        }
+        Ty::Rest(t) => {
+            out.push('R');
+            ty_token(t, None, out);
+        }
+        Ty::Boxed(t) => ty_token(t, None, out),
+    }
+}
+
+/// The model token of the tree; `sel` is `Some` for the root (whose ids the instruction selects).
+fn struct_token(s: &StructDef, sel: Option<IdSel>, out: &mut String) {
+    let r = sel.unwrap_or_default();
+    let (b, e) = if r.v { s.alt.unwrap_or((false, false)) } else { (s.before, s.extra) };
+    let x = if r.c { s.calt.unwrap_or(false) } else { s.cextra };
+    let fl: String = [(b, 'b'), (e, 'e'), (x, 'x')].iter().filter(|x| x.0).map(|x| x.1).collect();
+    write!(out, "N{}{fl}(", s.sid).unwrap();
+    let mut first = true;
+    for (i, f) in s.fields.iter().enumerate() {
+        if let Ty::Plain = f.ty {
+            continue;
+        }
+        if !first {
+            out.push(',');
+        }
+        first = false;
+        let (req, skip, funder, recipient, addr, temp, arg) = if r.v {
+            let (q, s) = f.alt.clone().unwrap_or((vec![], false));
+            (q, s, false, false, false, false, false)
+        } else {
+            (f.requires.clone(), f.skip, f.funder, f.recipient, f.addr, f.temp, f.arg)
+        };
+        write!(out, "{i}").unwrap();
+        for q in &req {
+            write!(out, "<{q}").unwrap();
+        }
+        let fl: String = [(skip, 's'), (funder, 'f'), (recipient, 'r'), (addr, 'a'), (temp, 't'), (arg, 'g')]
+            .iter()
+            .filter(|x| x.0)
+            .map(|x| x.1)
+            .collect();
+        if !fl.is_empty() {
+            write!(out, "!{fl}").unwrap();
+        }
+        out.push('=');
+        ty_token(&f.ty, sel.map(|_| r), out);
+    }
+    out.push(')');
 }
 
 /// random nested struct
@@ -278,12 +433,12 @@ fn random_struct(depth: usize, rng: &mut Rng, budget: &mut i32) -> StructDef {
                 Ty::Struct(Box::new(random_struct(depth + 1, rng, budget)))
             } else {
                 *budget -= 1;
-                Ty::Leaf
+                Ty::Leaf(0)
             };
-            FieldDef { requires: req.clone(), skip: rng.chance(12), funder: false, recipient: false, alt: None, ty }
+            FieldDef { skip: rng.chance(12), ..FieldDef::of(ty, req.clone()) }
         })
         .collect();
-    let leaves: Vec<usize> = (0..n).filter(|&i| matches!(fields[i].ty, Ty::Leaf)).collect();
+    let leaves: Vec<usize> = (0..n).filter(|&i| matches!(fields[i].ty, Ty::Leaf(_))).collect();
     if !leaves.is_empty() && rng.chance(50) {
         let i = leaves[rng.below(leaves.len() as u64) as usize];
         fields[i].funder = true;
@@ -292,12 +447,82 @@ fn random_struct(depth: usize, rng: &mut Rng, budget: &mut i32) -> StructDef {
         let i = leaves[rng.below(leaves.len() as u64) as usize];
         fields[i].recipient = true;
     }
-    // a plain (decode-skipped) field somewhere; `requires` indices refer to positions, so append
-    // it at the end to keep them valid
+    // a plain (decode-skipped) field; `requires` indices refer to positions, so append it
     if n < FIELD.len() - 1 && rng.chance(15) {
-        fields.push(FieldDef { requires: vec![], skip: false, funder: false, recipient: false, alt: None, ty: Ty::Plain });
+        fields.push(FieldDef::of(Ty::Plain, vec![]));
     }
-    StructDef { before: rng.chance(40), extra: rng.chance(40), cextra: rng.chance(30), alt: None, fields }
+    StructDef { before: rng.chance(40), extra: rng.chance(40), cextra: rng.chance(30), fields, ..Default::default() }
+}
+
+/// a small hook-less struct of leaves usable as a container element
+fn elem_struct(rng: &mut Rng) -> StructDef {
+    let n = 2 + rng.below(2) as usize;
+    flat(&random_dag(n, rng, false))
+}
+
+/// random struct with container / wrapper / attribute features (round 3)
+fn random_container_struct(depth: usize, rng: &mut Rng) -> StructDef {
+    let n = if depth == 0 { 3 + rng.below(3) as usize } else { 1 + rng.below(3) as usize };
+    let shape = match rng.below(10) {
+        0 | 1 if depth > 0 => Shape::Tuple,
+        2 | 3 => Shape::Generic,
+        _ => Shape::Named,
+    };
+    let g = if shape == Shape::Tuple { vec![vec![]; n] } else { random_dag(n, rng, false) };
+    let elem = |rng: &mut Rng| -> Ty {
+        match rng.below(4) {
+            0 => Ty::Struct(Box::new(elem_struct(rng))),
+            1 => Ty::Opt(Box::new(Ty::Leaf(0))),
+            _ => Ty::Leaf(0),
+        }
+    };
+    let mut fields: Vec<FieldDef> = vec![];
+    for (i, req) in g.iter().enumerate() {
+        let last = i + 1 == n;
+        let ty = match rng.below(12) {
+            0 | 1 => Ty::Opt(Box::new(if rng.chance(50) { Ty::Leaf(0) } else { Ty::Struct(Box::new(elem_struct(rng))) })),
+            2 => Ty::VecN(rng.below(4) as usize, if rng.chance(50) { Some(rng.below(3) as usize) } else { None }, Box::new(elem(rng))),
+            3 => Ty::Arr(1 + rng.below(3) as usize, Box::new(elem(rng))),
+            4 if depth < 2 => Ty::Struct(Box::new(random_container_struct(depth + 1, rng))),
+            5 => Ty::Boxed(Box::new(if rng.chance(50) { Ty::Leaf(0) } else { Ty::Struct(Box::new(elem_struct(rng))) })),
+            6 => {
+                // `#[single_account_set]` wrapper (possibly two levels) with its own hooks
+                let w = |inner: Ty, rng: &mut Rng| StructDef {
+                    shape: Shape::Single,
+                    before: rng.chance(50),
+                    extra: rng.chance(50),
+                    cextra: rng.chance(30),
+                    fields: vec![FieldDef::of(inner, vec![])],
+                    ..Default::default()
+                };
+                let w1 = w(Ty::Leaf(0), rng);
+                if rng.chance(30) {
+                    let w2 = w(Ty::Struct(Box::new(w1)), rng);
+                    Ty::Struct(Box::new(w2))
+                } else {
+                    Ty::Struct(Box::new(w1))
+                }
+            }
+            7 if last && depth == 0 => Ty::Rest(Box::new(if rng.chance(60) { Ty::Leaf(0) } else { Ty::Opt(Box::new(Ty::Leaf(0))) })),
+            _ => Ty::Leaf(0),
+        };
+        let mut f = FieldDef::of(ty, req.clone());
+        f.skip = rng.chance(8);
+        if matches!(f.ty, Ty::Leaf(_)) && shape != Shape::Generic {
+            f.addr = rng.chance(30);
+            f.arg = rng.chance(35);
+            f.temp = f.arg && rng.chance(60);
+        }
+        fields.push(f);
+    }
+    if shape != Shape::Generic {
+        let leaves: Vec<usize> = (0..n).filter(|&i| matches!(fields[i].ty, Ty::Leaf(_))).collect();
+        if !leaves.is_empty() && rng.chance(40) {
+            let i = leaves[rng.below(leaves.len() as u64) as usize];
+            fields[i].funder = true;
+        }
+    }
+    StructDef { shape, before: rng.chance(30), extra: rng.chance(30), cextra: rng.chance(25), fields, ..Default::default() }
 }
 
 #[derive(Clone)]
@@ -314,7 +539,7 @@ struct Variant {
     explicit: Option<(String, u64)>,
     acct: usize, // index into account sets
     alen: usize,
-    alt: bool,
+    sel: IdSel,
     ret: bool,
 }
 
@@ -326,8 +551,8 @@ struct Set {
 
 struct Acct {
     name: String,
-    tok: String,
-    tok_alt: Option<String>,
+    ty: String,
+    def: StructDef,
 }
 
 fn main() {
@@ -354,7 +579,6 @@ fn main() {
     for (i, g) in random_dags5(dag5).into_iter().enumerate() {
         defs.push((format!("G5n{i}"), flat(&g)));
     }
-    let n_flat = defs.len();
 
     // --- feature sets
     let chain: Graph = vec![vec![2], vec![0], vec![]]; // a requires c, b requires a
@@ -387,7 +611,7 @@ fn main() {
     // K: decode-skipped plain fields (appended so that `requires` positions stay valid)
     for (i, g) in [&chain, &fork].iter().enumerate() {
         let mut s = flat(g);
-        s.fields.push(FieldDef { ty: Ty::Plain, ..FieldDef::leaf(vec![]) });
+        s.fields.push(FieldDef::of(Ty::Plain, vec![]));
         s.fields.push(FieldDef::leaf(vec![1]));
         defs.push((format!("K{i}"), s));
     }
@@ -417,7 +641,7 @@ fn main() {
             extra: true,
             fields: vec![
                 FieldDef { funder: true, ..FieldDef::leaf(vec![1]) },
-                FieldDef { ty: Ty::Struct(Box::new(inner)), ..FieldDef::leaf(vec![]) },
+                FieldDef::of(Ty::Struct(Box::new(inner)), vec![]),
                 FieldDef { skip: true, recipient: true, ..FieldDef::leaf(vec![]) },
             ],
             ..Default::default()
@@ -449,14 +673,110 @@ fn main() {
         s.fields[i % n].funder = true;
         defs.push((format!("I{i}"), s));
     }
+    // ---- round 3
+    // A: field-level address / temp / arg in every combination on the chain
+    for m in 0..8u32 {
+        let mut s = flat(&chain);
+        for f in s.fields.iter_mut() {
+            f.addr = m & 1 != 0;
+            f.temp = m & 2 != 0;
+            f.arg = m & 4 != 0 || f.temp; // the macro rejects `temp` without `arg`
+        }
+        s.fields[(m % 3) as usize].skip = m >= 6;
+        s.fields[1].funder = true;
+        s.before = m == 3;
+        defs.push((format!("A{m}"), s));
+    }
+    // C: containers, hand-written
+    {
+        let el = flat(&vec![vec![1], vec![]]); // x requires y
+        let w1 = StructDef { shape: Shape::Single, before: true, cextra: true, fields: vec![FieldDef::leaf(vec![])], ..Default::default() };
+        let w2 = StructDef { shape: Shape::Single, extra: true, fields: vec![FieldDef::of(Ty::Struct(Box::new(w1.clone())), vec![])], ..Default::default() };
+        let tup = StructDef {
+            shape: Shape::Tuple,
+            extra: true,
+            fields: vec![FieldDef::leaf(vec![]), FieldDef::of(Ty::Opt(Box::new(Ty::Leaf(0))), vec![]), FieldDef::leaf(vec![])],
+            ..Default::default()
+        };
+        let gen = StructDef {
+            shape: Shape::Generic,
+            before: true,
+            fields: vec![FieldDef::leaf(vec![1]), FieldDef::of(Ty::Struct(Box::new(tup.clone())), vec![])],
+            ..Default::default()
+        };
+        let c0 = StructDef {
+            extra: true,
+            cextra: true,
+            dalt: true,
+            calt: Some(false),
+            fields: vec![
+                FieldDef { addr: true, temp: true, arg: true, funder: true, ..FieldDef::leaf(vec![1]) },
+                FieldDef::of(Ty::Opt(Box::new(Ty::Leaf(0))), vec![]),
+                FieldDef::of(Ty::VecN(2, Some(1), Box::new(Ty::Leaf(0))), vec![1]),
+                FieldDef::of(Ty::Arr(2, Box::new(Ty::Struct(Box::new(el.clone())))), vec![]),
+                FieldDef::of(Ty::Struct(Box::new(w2)), vec![3]),
+                FieldDef::of(Ty::Rest(Box::new(Ty::Leaf(0))), vec![]),
+            ],
+            ..Default::default()
+        };
+        defs.push(("C0".into(), c0));
+        let c1 = StructDef {
+            before: true,
+            fields: vec![
+                FieldDef::of(Ty::Boxed(Box::new(Ty::Struct(Box::new(gen)))), vec![2]),
+                FieldDef::of(Ty::Opt(Box::new(Ty::Struct(Box::new(el.clone())))), vec![]),
+                FieldDef::of(Ty::VecN(0, Some(2), Box::new(Ty::Opt(Box::new(Ty::Leaf(0))))), vec![]),
+                FieldDef::of(Ty::Rest(Box::new(Ty::Opt(Box::new(Ty::Leaf(0))))), vec![]),
+            ],
+            dalt: true,
+            calt: Some(true),
+            ..Default::default()
+        };
+        defs.push(("C1".into(), c1));
+        // options in a row: which accounts are the placeholders decides the shape
+        let c2 = StructDef {
+            fields: vec![
+                FieldDef::of(Ty::Opt(Box::new(Ty::Leaf(0))), vec![2]),
+                FieldDef::of(Ty::Opt(Box::new(Ty::Leaf(0))), vec![]),
+                FieldDef::of(Ty::Opt(Box::new(Ty::Struct(Box::new(w1)))), vec![]),
+                FieldDef::leaf(vec![0]),
+            ],
+            extra: true,
+            ..Default::default()
+        };
+        defs.push(("C2".into(), c2));
+        defs.push(("C3".into(), tup));
+    }
+    let mut rng = Rng(0xC11_C047);
+    for i in 4..=75 {
+        defs.push((format!("C{i}"), random_container_struct(0, &mut rng)));
+    }
+    // J: second decode / cleanup ids on top of a second validate id
+    for i in 0..6 {
+        let mut s = flat(&chain);
+        s.fields.push(FieldDef::of(Ty::VecN(1 + i % 3, Some(i % 2), Box::new(Ty::Leaf(0))), vec![0]));
+        s.dalt = true;
+        s.calt = Some(i % 2 == 0);
+        s.cextra = i % 3 == 0;
+        if i >= 3 {
+            let g2 = random_dag(4, &mut rng, false);
+            for (f, req) in s.fields.iter_mut().zip(&g2) {
+                f.alt = Some((req.clone(), false));
+            }
+            s.alt = Some((true, i == 4));
+        }
+        defs.push((format!("J{i}"), s));
+    }
 
     let mut src = String::new();
     writeln!(src, "// @generated by hx-lifecycle/build.rs").unwrap();
     let mut accts: Vec<Acct> = vec![];
-    for (name, def) in &defs {
-        let mut e = Emit { src: &mut src, root: name.clone(), pid: 0, sid: 0, inner: 0 };
-        let (tok, tok_alt) = e.emit(def, name);
-        accts.push(Acct { name: name.clone(), tok, tok_alt: def.alt.map(|_| tok_alt) });
+    for (name, def) in defs {
+        let mut def = def;
+        let mut ids = Ids { root: name.clone(), pid: 0, sid: 0, inner: 0 };
+        assign(&mut def, name.clone(), &mut ids);
+        let ty = emit_struct(&def, &mut src);
+        accts.push(Acct { name, ty, def });
     }
 
     // ---------------------------------------------------------------- instruction sets
@@ -466,7 +786,7 @@ fn main() {
         explicit: explicit.map(|x| (x.to_string(), x)),
         acct: acct_of(acct),
         alen,
-        alt: false,
+        sel: IdSel::default(),
         ret: alen == 2,
     };
     let vx = |name: &str, text: &str, val: u64, acct: &str, alen: usize| Variant {
@@ -474,7 +794,7 @@ fn main() {
         explicit: Some((text.into(), val)),
         acct: acct_of(acct),
         alen,
-        alt: false,
+        sel: IdSel::default(),
         ret: false,
     };
     let mut sets: Vec<Set> = vec![
@@ -496,7 +816,7 @@ fn main() {
                 v("A", None, "P1", 0),
                 v("Ab", None, "P2", 1),
                 v("TransferTokens", None, "G4n100", 4),
-                v("CloseAccount", None, "G3n20", 0),
+                v("CloseAccount", None, "C0", 0),
                 v("X1", None, "P0", 1),
                 v("SetAuthorityV2", None, "N0", 2),
             ],
@@ -569,51 +889,65 @@ fn main() {
                 vx("Paren", "(2 + 3) * 4", 20, "P2r", 1),
                 v("AfterParen", None, "G3n5", 1),
                 vx("Or", "0x41 | 0x01", 0x41, "P0", 0),
-                v("AfterOr", None, "P1", 2),
+                v("AfterOr", None, "C2", 2),
             ],
         },
     ];
     let n_dispatch_sets = sets.len();
-    // zoo sets: every account set reachable, up to 32 variants per set, kinds rotating
+    // zoo sets: every account set reachable (under every id combination it declares), up to 32
+    // variants per set, kinds rotating
     let zoo_kinds = [Kind::Default, Kind::Repr("u8"), Kind::Repr("u16"), Kind::Repr("u32")];
     let alens = [0usize, 1, 4, 2, 1];
-    let mut zoo: Vec<(usize, bool)> = vec![];
+    let mut zoo: Vec<(usize, IdSel)> = vec![];
     for (i, a) in accts.iter().enumerate() {
-        zoo.push((i, false));
-        if a.tok_alt.is_some() {
-            zoo.push((i, true));
+        zoo.push((i, IdSel::default()));
+        let (hv, hd, hc) = (a.def.alt.is_some(), a.def.dalt, a.def.calt.is_some());
+        if hv {
+            zoo.push((i, IdSel { v: true, ..Default::default() }));
+        }
+        if hd {
+            zoo.push((i, IdSel { d: true, ..Default::default() }));
+        }
+        if hc {
+            zoo.push((i, IdSel { c: true, ..Default::default() }));
+        }
+        if hd && hc {
+            zoo.push((i, IdSel { d: true, c: true, v: hv }));
         }
     }
-    let _ = n_flat;
     for (ci, chunk) in zoo.chunks(32).enumerate() {
         let kind = zoo_kinds[ci % zoo_kinds.len()].clone();
         let mut variants = vec![];
-        for (j, &(gi, alt)) in chunk.iter().enumerate() {
+        for (j, &(gi, sel)) in chunk.iter().enumerate() {
             let explicit = match (&kind, j) {
                 (Kind::Repr("u16"), _) => Some(1000 + 7 * j as u64 + 256 * (j as u64 % 3)),
                 (Kind::Repr("u32"), j) if j % 5 == 0 => Some(0x0101_0000 * (j as u64 / 5 + 1)),
                 (Kind::Repr("u8"), 0) => Some(100),
                 _ => None,
             };
+            let suffix: String = [(sel.d, "Dalt"), (sel.v, "Valt"), (sel.c, "Calt")].iter().filter(|x| x.0).map(|x| x.1).collect();
             variants.push(Variant {
-                name: format!("V{}{}", accts[gi].name, if alt { "Alt" } else { "" }),
+                name: format!("V{}{suffix}", accts[gi].name),
                 explicit: explicit.map(|x| (x.to_string(), x)),
                 acct: gi,
                 alen: alens[(gi + j) % alens.len()],
-                alt,
+                sel,
                 ret: (gi + j) % 3 == 0,
             });
         }
         sets.push(Set { name: format!("Z{ci}"), kind, variants });
     }
 
+    let arg = |b: bool| if b { "Alt" } else { "()" };
     let ix_ty = |var: &Variant, hid: usize| {
         format!(
-            "GIx<{}, {hid}, {}, {}, {}>",
-            accts[var.acct].name,
+            "GIx<{}, {hid}, {}, {}, {}, {}, {}>",
+            accts[var.acct].ty,
             var.alen,
-            if var.alt { "Alt" } else { "()" },
-            if var.ret { "u64" } else { "()" }
+            arg(var.sel.v),
+            if var.ret { "u64" } else { "()" },
+            arg(var.sel.d),
+            arg(var.sel.c),
         )
     };
     for s in &sets {
@@ -679,7 +1013,8 @@ fn main() {
                 None => "None".into(),
             };
             let a = &accts[var.acct];
-            let tok = if var.alt { a.tok_alt.as_ref().unwrap() } else { &a.tok };
+            let mut tok = String::new();
+            struct_token(&a.def, Some(var.sel), &mut tok);
             writeln!(
                 src,
                 "        VarMeta {{ name: {:?}, explicit: {ex}, hid: {hid}, alen: {}, acct: {:?}, tree: {:?} }},",
